@@ -1103,7 +1103,7 @@ fn gen_cluster(r: &mut Rng) -> ClusterC {
     let cfg = CfgC {
         per_shard,
         pool_n: if per_shard { r.range(1, 2) as usize } else { r.range(1, 4) as usize },
-        no_sap: r.chance(1, 6),
+        no_sap: r.chance(1, 4),
         pol_pref: gen_pref(r, true),
         ta: r.chance(9, 10),
         fo: r.bool(),
@@ -1354,11 +1354,13 @@ async fn run_cluster(r: &mut Rng, c: &ClusterC, nkeys: usize, out: &mut Out) {
         }
         // connection loss and refill between statements (more often where the plain port makes excess
         // connections likely)
-        if r.chance(if c.cfg.no_sap { 3 } else { 2 }, 4) {
+        if c.cfg.no_sap || r.bool() {
             let up: Vec<usize> = (0..c.nodes.len()).filter(|i| run.expected(*i, true) > 0).collect();
-            let i = *r.pick(&up);
+            let sharded: Vec<usize> = up.iter().copied().filter(|i| c.nodes[*i].nr > 1).collect();
+            let i = if c.cfg.no_sap && !sharded.is_empty() { *r.pick(&sharded) } else { *r.pick(&up) };
             let have = run.judged.values().filter(|(nd, _)| *nd == i).count();
-            let count = match r.below(4) { 0 => have, 1 => 1, _ => r.range(1, have as u64) as usize };
+            // one cut connection + a shifted round-robin on the plain port = a guaranteed surplus connection
+            let count = if c.cfg.no_sap && c.cfg.per_shard && r.bool() { 1 } else { match r.below(4) { 0 => have, 1 => 1, _ => r.range(1, have as u64) as usize } };
             let shift = if c.nodes[i].nr > 1 && r.chance(2, 3) { r.range(1, c.nodes[i].nr as u64 - 1) as usize } else { 0 };
             if !run.kill_round(i, count, shift).await {
                 out.case(&format!("K {} {} {} {}", cf, st.field(), tabs_s(&hist[j]), "n"), "skip:refill-not-established -");
